@@ -74,7 +74,7 @@ Data(kind) ==                       \* kind \in {"challenge", "garbage", "noid"}
     /\ UNCHANGED <<phase, todo, cur, offered, okSeen, fdAnswered>>
 
 (* anything that is not a server command of the protocol *)
-Unknown(kind) ==                    \* "word", "empty", "nontext", "begin"
+Unknown(kind) ==                    \* "word", "empty", "nontext", "begin", "endless" (more than 16 KiB and still no CR LF)
     /\ Live
     /\ phase' = "closed" /\ out' = <<"close">>
     /\ UNCHANGED <<todo, cur, offered, okSeen, fdAnswered>>
@@ -91,7 +91,7 @@ Next ==
     \/ Rejected \/ ErrorLine \/ Agree
     \/ \E g \in {"valid"} \cup BadGuids : Ok(g)
     \/ \E k \in {"challenge", "garbage", "noid"} : Data(k)
-    \/ \E k \in {"word", "empty", "nontext", "begin"} : Unknown(k)
+    \/ \E k \in {"word", "empty", "nontext", "begin", "endless"} : Unknown(k)
 
 Spec == Init /\ [][Next]_vars
 
@@ -111,6 +111,6 @@ NoStall == [][Live => out' # <<>>]_vars
 ClosedForReason == [][phase' = "closed" /\ phase # "closed" =>
                         \/ todo = <<>>
                         \/ \E g \in BadGuids : Ok(g)
-                        \/ \E k \in {"word", "empty", "nontext", "begin"} : Unknown(k)
+                        \/ \E k \in {"word", "empty", "nontext", "begin", "endless"} : Unknown(k)
                         \/ Agree]_vars
 =============================================================================
